@@ -20,13 +20,14 @@ from lib import common as C          # noqa: E402
 from lib import worldgen as G        # noqa: E402
 
 # fields that carry no claim (identification, echo of the script, informational)
-SKIP = {"op", "tid", "cfg", "w", "panic", "mode", "threads_n", "shape", "variant", "how", "tag", "take", "fmt", "ctx", "drift", "path",
+SKIP = {"op", "tid", "cfg", "w", "panic", "worlds", "mode", "threads_n", "shape", "variant", "how", "tag", "take", "fmt", "ctx", "drift", "path",
         "v", "val", "c", "rec", "watch", "top", "kind", "in", "msg", "k", "s", "sel", "name", "reads", "writes", "deps", "stage", "rounds",
         "threads", "tfault", "refill", "fclear", "fired", "store", "pairs", "mem", "ents", "init", "hs", "spec", "T", "V", "mks", "recs"}
 # accepted on purpose (with the reason)
 ALLOW = {
     ("world", "SOp", "b"): "contains() is reported as `b` only when the path is contains; other paths report `res`",
     ("world", "Created", "with"): "the components a builder attaches are an input of the event, the sweep checks the outcome",
+    ("world", "Created", "obs.walive"): "World::is_alive is a merged view: compared for merged handles only (DESIGN, C02)",
 }
 
 
@@ -41,10 +42,16 @@ def mutate(v):
     if isinstance(v, list):
         if not v:
             return None
-        if all(isinstance(x, (list, dict)) for x in v) or len(v) > 1:
-            return v[:-1]
-        m = mutate(v[0])
-        return None if m is None else [m]
+        # corrupt the last element (an inconsistent observation) rather than dropping it (a missing one)
+        m = mutate(v[-1])
+        if m is not None:
+            return v[:-1] + [m]
+        return v[:-1]
+    if isinstance(v, dict):
+        for k in sorted(v):
+            m = mutate(v[k])
+            if m is not None:
+                return dict(v, **{k: m})
     return None
 
 
@@ -144,32 +151,38 @@ def main():
         n0, v0 = C.validate_trace(tp, module + ".tla", module + ".cfg")
         if v0:
             raise SystemExit("the uncorrupted %s trace is not accepted: %s" % (dom, v0[:2]))
-        # one corruption per (event type, field): the first occurrence where a corruption applies
+        # per (event type, field): up to 4 occurrences where a corruption applies (one occurrence can be a
+        # case in which the field does not matter, e.g. the handle of a removal that finds nothing);
+        # the field is bound if at least one corruption of it is rejected
         done = {}
         for i, ev in enumerate(evs):
             for label, path in targets(ev):
                 key = (ev["op"] + ("/" + str(ev.get("k", ev.get("cls", ""))) if ev["op"] in ("WOp", "SOp") else ""), label)
-                if key in done:
+                if len(done.get(key, [])) >= 4:
                     continue
                 m = mutate(get(ev, path))
                 if m is None:
                     continue
-                done[key] = (i, path, m)
+                done.setdefault(key, []).append((i, path, m))
         print("[%s] %d events, %d (event type, field) pairs" % (dom, len(evs), len(done)))
-        for (et, label), (i, path, m) in sorted(done.items()):
-            mevs = copy.deepcopy(evs)
-            put(mevs[i], path, m)
-            mp = os.path.join(wd, "m.ndjson")
-            with open(mp, "w") as f:
-                for e in mevs:
-                    f.write(json.dumps(e, separators=(",", ":")) + "\n")
-            total += 1
-            try:
-                n, v = C.validate_trace(mp, module + ".tla", module + ".cfg")
-                rejected = bool(v)
-                how = v[0]["p"] + ": " + v[0]["m"][:60] if v else ""
-            except C.ToolError:
-                rejected, how = True, "not interpretable"
+        for (et, label), occ in sorted(done.items()):
+            rejected, how = False, ""
+            for (i, path, m) in occ:
+                mevs = copy.deepcopy(evs)
+                put(mevs[i], path, m)
+                mp = os.path.join(wd, "m.ndjson")
+                with open(mp, "w") as f:
+                    for e in mevs:
+                        f.write(json.dumps(e, separators=(",", ":")) + "\n")
+                total += 1
+                try:
+                    n, v = C.validate_trace(mp, module + ".tla", module + ".cfg")
+                    rejected = bool(v)
+                    how = v[0]["p"] + ": " + v[0]["m"][:60] if v else ""
+                except C.ToolError:
+                    rejected, how = True, "not interpretable"
+                if rejected:
+                    break
             if not rejected:
                 allow = ALLOW.get((dom, et.split("/")[0], label))
                 holes.append((dom, et, label, allow))
